@@ -108,16 +108,33 @@ fn check_built(built: Option<BackoffStrategy>, cfg: &Cfg, max_iter: u32) -> Resu
     let cfg2 = cfg.clone();
     let r = catch_unwind(AssertUnwindSafe(move || {
         let mut out = vec![];
-        let it = built.unwrap_or_else(|| build(&cfg2)).into_iter();
-        for (i, a) in it.enumerate() {
-            out.push((a.duration, a.attempt_num, a.max_attempts));
-            if i as u32 >= max_iter {
+        let strategy = built.unwrap_or_else(|| build(&cfg2));
+        // drained the way `collect()`, `extend()`, `zip()` … drain an iterator: `size_hint()` is consulted before
+        // every `next()` and once more after the end
+        let mut hints: Vec<(usize, Option<usize>)> = vec![];
+        let mut it = strategy.clone().into_iter();
+        let mut i = 0u32;
+        loop {
+            hints.push(it.size_hint());
+            match it.next() {
+                Some(a) => out.push((a.duration, a.attempt_num, a.max_attempts)),
+                None => break,
+            }
+            if i >= max_iter {
                 break;
             }
+            i += 1;
         }
-        out
+        hints.push(it.size_hint());
+        // … and through adaptors, when the hints allow it without exhausting memory
+        let collected = if hints.iter().all(|h| h.0 <= 1_000_000) && cfg2.attempts <= max_iter {
+            Some((strategy.clone().into_iter().collect::<Vec<_>>().len(), strategy.clone().into_iter().count(), strategy.into_iter().last().map(|a| a.attempt_num)))
+        } else {
+            None
+        };
+        (out, hints, collected)
     }));
-    let out = match r {
+    let (out, hints, collected) = match r {
         Ok(o) => o,
         Err(p) => {
             let msg = if let Some(s) = p.downcast_ref::<&str>() {
@@ -138,6 +155,22 @@ fn check_built(built: Option<BackoffStrategy>, cfg: &Cfg, max_iter: u32) -> Resu
     let expect_len = cfg.attempts.min(max_iter + 1) as usize;
     if out.len() != expect_len {
         return Err(("length".into(), format!("schedule yielded {} attempts, expected {}", out.len(), expect_len)));
+    }
+    if cfg.attempts <= max_iter {
+        for (k, (lo, hi)) in hints.iter().enumerate() {
+            let remaining = expect_len.saturating_sub(k);
+            if *lo > remaining || hi.map_or(false, |h| h < remaining) {
+                return Err((
+                    "size-hint".into(),
+                    format!("with {} of {} attempts still to come the iterator's size_hint() is ({}, {:?}): collect()/extend() size their buffers from it (a lower bound of {} elements makes them abort on allocation)", remaining, expect_len, lo, hi, lo),
+                ));
+            }
+        }
+        if let Some((n_collect, n_count, last)) = collected {
+            if n_collect != expect_len || n_count != expect_len || last != if expect_len == 0 { None } else { Some(expect_len as u32) } {
+                return Err(("length".into(), format!("collect() gave {} attempts, count() {}, last() is numbered {:?}; expected {}", n_collect, n_count, last, expect_len)));
+            }
+        }
     }
     for (i, (d, num, max)) in out.iter().enumerate() {
         let n = i as u32 + 1;
